@@ -141,6 +141,10 @@ class FaultPeer:
                     # of it, the row holds these bytes
                     if genuine is not None:
                         send(genuine + bytes([0x41, 0x42, 0x43][: 1 + self.n_main % 3]))
+                elif outcome == "echo80":
+                    # an ECU that echoes the sub-function byte with bit 7 (suppressPosRspMsgIndicationBit) set in its positive reply
+                    if genuine is not None:
+                        send(genuine[:1] + bytes([genuine[1] | 0x80]) + genuine[2:] if len(genuine) >= 2 and genuine[0] in (0x50, 0x51, 0x59, 0x67, 0x68, 0x6C, 0x71, 0x7E, 0xC5) else genuine)
                 elif outcome == "foreign":
                     send(b"\x7e\x00" if pdu[0] != 0x3E else b"\x50\x01\x00\x32\x01\xf4")
                 elif outcome == "pending":
@@ -287,6 +291,10 @@ class C11(Check):
         if not plan["db_locked"] and not plan["db_locked_run_meta"] and not plan["state_race"] and rng5.random() < 0.2:
             plan["db_busy"] = [[round(rng5.uniform(0.0, 1.5), 3), rng5.choice([0.03, 0.4, 2.5])] for _ in range(rng5.choice([1, 2]))]
             plan["db_busy_at_end"] = rng5.choice([None, 0.3, 4.0])
+        # some replies echo the sub-function with bit 7 set (own stream of draws): the row holds the bytes that were on the wire
+        rng_e = rng_for(seed, "C11-echo80", index)
+        if rng_e.random() < 0.15 and not plan["state_race"]:
+            plan["outcomes"] = [("echo80" if o_ == "asis" and rng_e.random() < 0.4 else o_) for o_ in plan["outcomes"]]
         plan["backlog"] = 0
         if index % 400 == 200:
             # a long run against a database far slower than the ECU: more than a thousand rows are waiting in the writer queue
